@@ -246,13 +246,20 @@ def run(ctx, focus, theorems, refuted, monitors, nrandom=(150, 1500), per_config
         return
     ctx.cov["monitor_evaluations"] = len(mons)
     seen = set()
-    nbad = 0
-    for k, b in enumerate(rm):
-        if b:
-            continue
-        nbad += 1
+    bad = [k for k, b in enumerate(rm) if not b]
+    nbad = len(bad)
+    # failures that carry no known-finding tag first: the report is capped and a recorded finding must never crowd out a new one
+    bad.sort(key=lambda k: (1 if monmeta[k][3] else 0, k))
+    ntagged = 0
+    for k in bad:
         hi, si, kind, tags = monmeta[k]
-        if (hi, kind) in seen or len(seen) >= 12:
+        if (hi, kind) in seen:
+            continue
+        if tags:
+            ntagged += 1
+            if ntagged > 4:
+                continue
+        elif len(seen) - min(ntagged, 4) >= 12:
             continue
         seen.add((hi, kind))
         st = obs[hi]["steps"]
@@ -408,6 +415,17 @@ def pool_scenarios(rng, ctx, n):
             ops.append(bnd(p, "node1"))
         hs.append(("pool:%d" % i, {"provider": False, "nodes": NODES, "conf": conf, "ops": ops}))
         ctx.dist("scenario:pool")
+    # a pool request with pre-allocation racing with the Filter of a pod of that pool (both hold the pool mutex)
+    for size in (1, 2, 3):
+        for held in (0, 1):
+            q = mkpod("job-7f9c6d-race", "race%d%d" % (size, held), "dp", "job", 0, pool="p1")
+            ops = [{"op": "dp_set", "ns": "ns1", "name": "job", "replicas": 3}, {"op": "pool_set", "name": "p1", "size": size}]
+            if held:
+                q0 = mkpod("job-7f9c6d-first", "first%d" % size, "dp", "job", 0, pool="p1")
+                ops += [put(q0), inf(q0), flt(q0), bnd(q0, "node1")]
+            ops += [put(q), inf(q), {"op": "pool_race", "name": "p1", "size": size, "ns": "ns1", "pod": q["Name"], "nodes": ["node1", "node2", "node3"]},
+                    bnd(q, "node1")]
+            hs.append(("pool-request-races-filter:%d:%d" % (size, held), {"provider": False, "nodes": NODES, "conf": conf, "ops": ops}))
     # K2, deterministic
     p1 = mkpod("job-7f9c6d-k1", "k1", "dp", "job", 0, pool="p1")
     p2 = mkpod("job-7f9c6d-k2", "k2", "dp", "job", 0, pool="p1")
@@ -433,9 +451,11 @@ def mon_c07(h, o, nwf, keys):
                 sizes.pop(op["name"], None)
             else:
                 sizes[op["name"]] = op["size"]
-        if prev is not None and k in ("filter", "bind", "api_pool", "event", "resync", "api_release"):
-            for name in sorted(set(list(sizes) + ([op["name"]] if k == "api_pool" else []))):
-                size = op["size"] if (k == "api_pool" and op["name"] == name) else sizes.get(name)
+        if prev is not None and k in ("filter", "bind", "api_pool", "pool_race", "event", "resync", "api_release"):
+            for name in sorted(set(list(sizes) + ([op["name"]] if k in ("api_pool", "pool_race") else []))):
+                size = op["size"] if (k in ("api_pool", "pool_race") and op["name"] == name) else sizes.get(name)
+                if k == "pool_race" and sizes.get(name) is not None:
+                    size = max(size, sizes[name])
                 if size is None:
                     continue
                 tags = []
